@@ -64,7 +64,28 @@ def run_case(spec):
     rc.add_connection_hints(hs)
     s.add_connection_hints(hr)
     t0 = r.seconds()
-    ds, dr = Result(s.connect()), Result(rc.connect())
+    # as in the CLI, one side may call connect() only later (when the other's answer arrives), so an
+    # inbound connection can finish negotiating before the local connect() is issued
+    late = rng.choice([None, None, "S", "R"])
+    pending_late = []
+
+    class _Later:
+        done = False
+        value = failure = None
+    if late == "S":
+        ds, dr = _Later(), Result(rc.connect())
+        pending_late.append("S")
+    elif late == "R":
+        ds, dr = Result(s.connect()), _Later()
+        pending_late.append("R")
+    else:
+        ds, dr = Result(s.connect()), Result(rc.connect())
+    t_start = {"S": t0, "R": t0}
+    t_finish = {}
+
+    def stamp(res, who):
+        d0 = getattr(res, "_d", None)
+        return res
     ports = {}
     if listen_s:
         ports["S"] = [h["port"] for h in hs if h["type"] == "direct-tcp-v1"][0]
@@ -109,7 +130,26 @@ def run_case(spec):
 
     class Drv:
         def actions(self_):
-            nonlocal budget
+            nonlocal budget, ds, dr
+            if pending_late and (world.step >= late_at or not r.actions()):
+                def go_late():
+                    nonlocal ds, dr
+                    who = pending_late.pop()
+                    t_start[who] = r.seconds()
+                    try:
+                        if who == "S":
+                            ds = Result(s.connect())
+                        else:
+                            dr = Result(rc.connect())
+                    except Exception as e:
+                        from twisted.python import failure as _f
+                        res = _Later()
+                        res.done, res.failure = True, _f.Failure(e)
+                        if who == "S":
+                            ds = res
+                        else:
+                            dr = res
+                return [(("app", "late-connect"), go_late)]
             if budget > 0 and not (ds.done and dr.done):
                 def go():
                     nonlocal budget
@@ -118,11 +158,19 @@ def run_case(spec):
                 return [(("app", "stranger"), go)]
             return []
         drain_actions = actions
+    late_at = rng.choice([5, 20, 60, 150])
     sch = Scheduler(world, Drv(), strategy=rng.choice(["random", "pct", "netfirst", "timersfirst"]), chunking="mixed",
                     tiny_budget=rng.choice([50, 400, 2000]), p_advance=rng.choice([0.0, 0.01]))
-    sch.run(6000, until=lambda: ds.done and dr.done)
-    end = sch.drain(400.0, 30000, until=lambda: ds.done and dr.done)
-    t_done = r.seconds() - t0
+    def hook():
+        for who, res in (("S", ds), ("R", dr)):
+            if res.done and who not in t_finish:
+                t_finish[who] = r.seconds()
+    sch.hook = hook
+    sch.run(6000, until=lambda: ds.done and dr.done and not pending_late)
+    end = sch.drain(400.0, 30000, until=lambda: ds.done and dr.done and not pending_late)
+    hook()
+    sch.hook = None
+    t_done = max([t_finish.get(w, r.seconds()) - t_start[w] for w in "SR"])
     sch.drain(200.0, 20000)
     world.finish()
 
@@ -148,6 +196,9 @@ def run_case(spec):
         return {"spec": spec, "relay": relay, "listen": [listen_s, listen_r], "fates": {"%s:%d" % k: v for k, v in bad.items()},
                 "strangers": strangers, "sender": repr(ds.value or ds.failure)[:120], "receiver": repr(dr.value or dr.failure)[:120],
                 "links": describe()[:14], "t_done": t_done}
+    for res in (ds, dr):
+        if res.failure is not None and res.failure.type.__name__ in ("RuntimeError", "TypeError", "AttributeError", "KeyError", "AssertionError", "ValueError"):
+            viol.append({"key": "C07/connect-raises/" + res.failure.type.__name__, "msg": "connect() failed with %r" % (res.failure.value,), "witness": wit()})
     honest_path = relay or any(v == "ok" for (k, v) in bad.items())
     both = ds.value is not None and dr.value is not None
     cs, cr = ds.value, dr.value
@@ -242,6 +293,6 @@ def run_case(spec):
     return {"violations": viol, "nontrivial": nontrivial,
             "counters": {"both_connected": int(both), "no_path_cases": int(not honest_path), "stranger_links": stranger_links,
                          "links": len(links), "failed_by_deadline": int(not both and t_done >= 2 * transit.TIMEOUT - 1),
-                         "won_" + str(winner): 1, "relay_cases": int(relay)},
+                         "won_" + str(winner): 1, "relay_cases": int(relay), "late_connect_cases": int(late is not None)},
             "sample": {"spec": spec, "relay": relay, "listen": [listen_s, listen_r], "fates": sorted(bad.values()),
                        "strangers": strangers, "both": both, "winner": winner, "t_done": t_done, "links": describe()[:6]}}
